@@ -19,7 +19,8 @@ ReduceP(x) ==
 IsCanon(x) == Lt(x, P)
 
 AddP(a, b) == ReduceP(Add(a, b))
-NegP(a)    == LET r == ReduceP(a) IN IF IsZero(r) THEN Zero ELSE Sub(P, r)
+NegP1(r)   == IF IsZero(r) THEN Zero ELSE Sub(P, r)
+NegP(a)    == NegP1(ReduceP(a))
 SubP(a, b) == AddP(a, NegP(b))
 MulP(a, b) == ReduceP(Mul(a, b))
 SqrP(a)    == MulP(a, a)
